@@ -8,6 +8,16 @@ RAN = ("validated in a scratch git worktree of /repo HEAD (/tmp/sv_<id>, removed
        "stable tests pass{extra}. Then `git -C /repo apply patch.diff`, `python -m allfedsa.cli <PID>`, `git -C /repo checkout -- .`.")
 
 SEEDS = {
+    "C06_1": dict(property="C06", summary="early `return 0` in calculate_animal_population when the herd starts the month at zero",
+                  needs="a herd first run down to exactly zero (reduced / feed_only_ruminants strategies): arrivals (dairy retirees, bull calves, births) vanish",
+                  caught_by=[("C06", "C06.LEDGER")], first_result="caught as written", strengthened=None),
+    "C06_2": dict(property="C06", summary="`pass ... else:` flattened into `continue` in the month-end per-animal loop: calculate_final_population is skipped",
+                  needs="a baseline-like herd with 0 < starvation deaths < 10 in a month (small national herds, last head of a starving herd)",
+                  caught_by=[("C06", "C06.RECORD")], first_result="missed (the rule only checked that the final step is the last statement of the loop)",
+                  strengthened="C06.RECORD: no continue/break/return anywhere in the per-animal passes of the month loop, and the final step is unconditional (must-execute)"),
+    "C06_3": dict(property="C06", summary="retiring_milk_head_monthly(fed_only=True) used for the hand-off to the meat herd, the unchanged call for the dairy herd's own deduction",
+                  needs="an under-fed dairy herd, or a dairy herd emptied under `reduced` (population_fed keeps its last value)",
+                  caught_by=[("C06", "C06.XFER")], first_result="caught as written", strengthened=None),
     "C09_1": dict(property="C09", summary="zero initialisation hoisted to one np.array([0] * NMONTHS) (int64) that the relocation branch fills by slice assignment",
                   needs="OG_USE_BETTER_ROTATION on; material for small producers (Djibouti loses half its outdoor production)",
                   caught_by=[("C09", "C09.QUANT")], first_result="caught as written (the reaching-stores rule written for F2)", strengthened=None),
